@@ -72,6 +72,9 @@ class FFCXBackendSymbols:
 
         self.original_constant_offsets = original_constant_offsets
 
+        # Number the domains in order of first use (used in Jacobian names)
+        self.domain_numbering: dict = {}
+
         # Keep tabs on tables, so the symbols can be reused
         self.quadrature_weight_tables = {}
         self.element_tables = {}
@@ -138,10 +141,11 @@ class FFCXBackendSymbols:
 
     def J_component(self, mt):
         """Jacobian component."""
-        return L.Symbol(
-            format_mt_name(f"J{ufl.domain.extract_unique_domain(mt.expr).ufl_id()}", mt),
-            dtype=L.DataType.REAL,
-        )
+        # Number domains by first use within the kernel: ufl_id() depends on how
+        # many meshes the process has created before
+        domain = ufl.domain.extract_unique_domain(mt.expr)
+        number = self.domain_numbering.setdefault(domain, len(self.domain_numbering))
+        return L.Symbol(format_mt_name(f"J{number}", mt), dtype=L.DataType.REAL)
 
     def domain_dof_access(self, dof, component, gdim, num_scalar_dofs, restriction):
         """Domain DOF access."""
